@@ -343,7 +343,7 @@ class ODLDecoder(PVLDecoder):
             match = re.fullmatch(
                 r"(?P<dt>.+?)"  # the part before the sign
                 r"(?P<sign>[+-])"  # required sign
-                r"(?P<hour>0?[0-9]|1[0-2])"  # 0 to 12
+                r"(?P<hour>[01]?[0-9]|2[0-3])"  # 0 to 23
                 fr"(?::?{self.grammar._M_frag})?",  # Minutes
                 value,
             )
